@@ -99,26 +99,25 @@ type outlineLvlXML struct {
 }
 
 // runXML represents a text run (<w:r>).
+//
+// The inline content of a run (text, tabs, breaks, symbols, ...) is kept as one
+// list in document order: a tab written before the text must come out before it.
 type runXML struct {
-	XMLName          xml.Name              `xml:"r"`
-	Properties       runPropsXML           `xml:"rPr"`
-	Text             []textXML             `xml:"t"`
-	Tabs             []tabXML              `xml:"tab"`
-	Breaks           []breakXML            `xml:"br"`
-	Drawing          []drawingXML          `xml:"drawing"`
-	Symbols          []symXML              `xml:"sym"`
-	AlternateContent []alternateContentXML `xml:"AlternateContent"`
+	XMLName    xml.Name        `xml:"r"`
+	Properties runPropsXML     `xml:"rPr"`
+	Drawing    []drawingXML    `xml:"drawing"`
+	Content    []runContentXML `xml:",any"` // everything else, in document order
 }
 
-// symXML represents a symbol character (<w:sym>).
-type symXML struct {
-	Font string `xml:"font,attr"` // Font name (e.g., "Segoe UI Emoji")
-	Char string `xml:"char,attr"` // Hex character code
-}
-
-// alternateContentXML represents mc:AlternateContent for emoji fallbacks.
-type alternateContentXML struct {
-	Fallback fallbackXML `xml:"Fallback"`
+// runContentXML is one inline child of a run: <w:t>, <w:tab>, <w:br>, <w:sym>,
+// <mc:AlternateContent> (others are kept but ignored). XMLName tells which.
+type runContentXML struct {
+	XMLName  xml.Name
+	Value    string      `xml:",chardata"` // <w:t>: the text
+	Type     string      `xml:"type,attr"` // <w:br>: page, column, textWrapping
+	Char     string      `xml:"char,attr"` // <w:sym>: hex character code
+	Font     string      `xml:"font,attr"` // <w:sym>: font name (e.g., "Segoe UI Emoji")
+	Fallback fallbackXML `xml:"Fallback"`  // <mc:AlternateContent>: emoji fallback text
 }
 
 // fallbackXML represents mc:Fallback containing text.
@@ -177,17 +176,6 @@ type textXML struct {
 	XMLName xml.Name `xml:"t"`
 	Space   string   `xml:"space,attr"` // preserve
 	Value   string   `xml:",chardata"`
-}
-
-// tabXML represents a tab character.
-type tabXML struct {
-	XMLName xml.Name `xml:"tab"`
-}
-
-// breakXML represents a break (line or page).
-type breakXML struct {
-	XMLName xml.Name `xml:"br"`
-	Type    string   `xml:"type,attr"` // page, column, textWrapping
 }
 
 // drawingXML represents an embedded drawing/image.
